@@ -91,3 +91,9 @@ mod tests {
         assert_ne!(inter, 0);
     }
 }
+#[cfg(feature = "itree_verif")]
+impl Layout {
+    pub(super) fn verif_fields(&self) -> (i64, i64, u32) {
+        (self.min, self.max, self.scale)
+    }
+}
